@@ -1,0 +1,97 @@
+//! Verification-only hooks (compiled only with `--cfg kismet_verif`).
+//!
+//! They let an external harness own the two sources of randomness in
+//! the crate (the maintenance trigger's countdown draws and the random
+//! shard choice), read the in-memory state that is otherwise private
+//! (per-thread countdown, per-shard load estimates), and be called
+//! back before each access to the shared load estimates.
+use std::cell::RefCell;
+use std::collections::VecDeque;
+use std::sync::atomic::{AtomicUsize, Ordering};
+
+#[derive(Default)]
+struct Script {
+    queue: VecDeque<u64>,
+    default: Option<u64>,
+}
+
+impl Script {
+    fn next(&mut self) -> Option<u64> {
+        match self.queue.pop_front() {
+            Some(x) => Some(x),
+            None => self.default,
+        }
+    }
+}
+
+std::thread_local! {
+    static TRIGGER_DRAWS: RefCell<Script> = RefCell::new(Default::default());
+    static SHARD_DRAWS: RefCell<Script> = RefCell::new(Default::default());
+    static TRIGGER_DRAWS_TAKEN: RefCell<u64> = const { RefCell::new(0) };
+}
+
+static YIELD_CALLBACK: AtomicUsize = AtomicUsize::new(0);
+
+/// Installs the draws `regenerate` will return on this thread: first
+/// the values in `queue`, then `default` forever (`None`: fall back to
+/// the real generator).
+pub fn script_trigger_draws(queue: &[u64], default: Option<u64>) {
+    TRIGGER_DRAWS.with(|s| {
+        *s.borrow_mut() = Script {
+            queue: queue.iter().copied().collect(),
+            default,
+        }
+    });
+}
+
+/// Same as `script_trigger_draws`, for `random_shard_id` (values are
+/// reduced modulo the number of shards).
+pub fn script_shard_draws(queue: &[u64], default: Option<u64>) {
+    SHARD_DRAWS.with(|s| {
+        *s.borrow_mut() = Script {
+            queue: queue.iter().copied().collect(),
+            default,
+        }
+    });
+}
+
+/// Number of scripted trigger draws consumed on this thread so far.
+pub fn trigger_draws_taken() -> u64 {
+    TRIGGER_DRAWS_TAKEN.with(|c| *c.borrow())
+}
+
+pub(crate) fn next_trigger_draw() -> Option<u64> {
+    let ret = TRIGGER_DRAWS.with(|s| s.borrow_mut().next());
+    if ret.is_some() {
+        TRIGGER_DRAWS_TAKEN.with(|c| *c.borrow_mut() += 1);
+    }
+    ret
+}
+
+pub(crate) fn next_shard_draw() -> Option<u64> {
+    SHARD_DRAWS.with(|s| s.borrow_mut().next())
+}
+
+/// Returns this thread's maintenance countdown (0: uninitialised).
+pub fn trigger_counter() -> u64 {
+    crate::trigger::verif_counter_get()
+}
+
+/// Overwrites this thread's maintenance countdown.
+pub fn set_trigger_counter(value: u64) {
+    crate::trigger::verif_counter_set(value)
+}
+
+/// Registers a function called before each access to a sharded
+/// cache's shared load estimates.
+pub fn set_yield_callback(f: Option<fn()>) {
+    YIELD_CALLBACK.store(f.map_or(0, |f| f as usize), Ordering::SeqCst);
+}
+
+pub(crate) fn yield_point() {
+    let f = YIELD_CALLBACK.load(Ordering::SeqCst);
+    if f != 0 {
+        let f: fn() = unsafe { std::mem::transmute::<usize, fn()>(f) };
+        f();
+    }
+}
